@@ -7,11 +7,14 @@ import Sfv.Model.Container
 import Sfv.Model.Evolve
 import Sfv.Model.SchemaDiff
 import Sfv.Props.C13
+import Sfv.Model.SchemaOf
+import Sfv.Model.SchemaWire
 namespace Sfv
 
 structure DState where
   env : TyEnv := []
   cfg : Cfg := {}
+  scfg : SCfg := {}
 
 /-- concrete conversion functions used by the type zoo (`savefile_versions_as`) -/
 def zooConv : UserFns
@@ -49,6 +52,39 @@ def showLoadErr : LoadErr → String
 def opaqueSchema : SchemaCodec Bytes :=
   { encS := fun _ s => s, decS := fun _ bs => .ok ([], bs), compat := fun _ _ => true }
 
+def listToWL : List W → WL
+  | [] => .nil
+  | t :: ts => .cons t (listToWL ts)
+
+def wlToList : WL → List W
+  | .nil => []
+  | .cons t ts => t :: wlToList ts
+
+instance : Inhabited W := ⟨.bool⟩
+
+mutual
+/-- flatten nested products (a one-field struct around a value has the bytes of the value) -/
+partial def flatW : W → List W
+  | .prod ts => flatWL ts
+  | .seq _ t => [.seq {} (.prod (listToWL (flatW t)))]
+  | .opt t => [.opt (.prod (listToWL (flatW t)))]
+  | .res a b => [.res (.prod (listToWL (flatW a))) (.prod (listToWL (flatW b)))]
+  | .rep n _ t => [.rep n none (.prod (listToWL (flatW t)))]
+  | .tagged w alts => [.tagged w (listToWL ((wlToList alts).map (fun a => .prod (listToWL (flatW a)))))]
+  | .str _ => [.str none]
+  | .sysTime => [.fixed 16]
+  | w => [w]
+partial def flatWL : WL → List W
+  | .nil => []
+  | .cons t ts => flatW t ++ flatWL ts
+end
+
+def sameBytes (a b : W) : Bool :=
+  let fa := flatW a
+  let fb := flatW b
+  -- `a` is the schema's grammar: it may know fewer (not yet alive) trailing variants than the reader `b`
+  fa.length == fb.length && (fa.zip fb).all (fun (x, y) => wireEqv x y)
+
 def parseBool : String → Option Bool
   | "true" => some true | "false" => some false | _ => none
 
@@ -62,7 +98,11 @@ def step (st : DState) (line : String) : DState × String :=
       | "sanity", some b => ({ st with cfg := { st.cfg with sanity := b } }, "(ok)")
       | "quirk-mul-overflow", some b => ({ st with cfg := { st.cfg with quirkMulOverflow := b } }, "(ok)")
       | "quirk-systime-panic", some b => ({ st with cfg := { st.cfg with quirkSysTimePanic := b } }, "(ok)")
-      | _, _ => (st, "(bad-op cfg)")
+      | _, _ =>
+        match k, b.toNat? with
+        | "vec-layout", some n => ({ st with scfg := { st.scfg with vecLayout := VLayout.ofCode n } }, "(ok)")
+        | "string-layout", some n => ({ st with scfg := { st.scfg with strLayout := VLayout.ofCode n } }, "(ok)")
+        | _, _ => (st, "(bad-op cfg)")
     | .list [.atom "def", .atom name, t] =>
       match parseTy st.env t with
       | some ty => ({ st with env := (name, ty) :: st.env }, "(ok)")
@@ -145,6 +185,29 @@ def step (st : DState) (line : String) : DState × String :=
       | some a, some b, some ver =>
         (st, if wireEqv (saveWire a ver) (wireOf b ver) then "(ok free)" else "(ok must-reject)")
       | _, _, _ => (st, "(bad-op xload)")
+    | .list [.atom "schema", .atom name, .atom ver] =>
+      match st.env.lookup name, ver.toNat? with
+      | some ty, some ver => (st, "(ok " ++ toHex (encSchema 2 (schemaOf st.scfg ty ver [])) ++ ")")
+      | _, _ => (st, "(bad-op schema)")
+    | .list [.atom "faithful", .atom name, .atom ver] =>
+      -- does the schema, read as a grammar, describe the same bytes as the writer's grammar?
+      match st.env.lookup name, ver.toNat? with
+      | some ty, some ver =>
+        match schemaWire (schemaOf st.scfg ty ver []) with
+        | some w => (st, "(ok " ++ toString (sameBytes w (erase (wireOf ty ver))) ++ ")")
+        | none => (st, "(ok false)")
+      | _, _ => (st, "(bad-op faithful)")
+    | .list [.atom "parse", .atom sh, .atom bh] =>
+      match parseHex sh, parseHex bh with
+      | some sb, some bs =>
+        match decSchema st.cfg 2 (sb.length + 1) sb with
+        | .ok (s, _) =>
+          match parse st.cfg s bs with
+          | some (.ok (v, r)) => (st, "(ok " ++ showV v ++ " " ++ toString r.length ++ ")")
+          | some (.error f) => (st, showFail f)
+          | none => (st, "(unparseable)")
+        | .error _ => (st, "(bad-op parse-undecodable)")
+      | _, _ => (st, "(bad-op parse)")
     | .list [.atom "packed", .atom name, .atom ver] =>
       match st.env.lookup name, ver.toNat? with
       | some ty, some ver => (st, "(ok " ++ toString (isPacked ty ver) ++ ")")
